@@ -32,6 +32,7 @@ class Ctx:
         self.exhaustive = True
         self.bins = {}
         self.parts = {}           # name -> dict of part coverage
+        self.max_violations = 300
 
     # ---- build
     def build(self, programs=("zwdrv",), variant="san"):
@@ -108,6 +109,12 @@ class Ctx:
         for v in unrepro:
             print("NOTE: unreproduced alarm dropped: %s :: %s" % (v["key"], v["what"]))
         out_paths = []
+        import glob as _glob
+        for old in _glob.glob(os.path.join(REPLAY, self.pid + "-*.json")):
+            try:
+                os.unlink(old)
+            except OSError:
+                pass
         for n, v in enumerate(fresh[:50]):
             h = hashlib.sha256(v["key"].encode()).hexdigest()[:10]
             path = os.path.join(REPLAY, "%s-%s.json" % (self.pid, h))
@@ -179,6 +186,8 @@ def chunks(it, n):
 
 
 def pmap(ctx, fn, chunk_iter, binary, voc="core", track=False, setup=(), extra=None, procs=16, timeout=20.0):
+    if len(ctx.violations) >= ctx.max_violations:
+        return
     """Run fn(drv, chunk, extra) -> dict over chunks on a pool; yields results as they finish.
     Stops feeding when the context deadline expires (marks ctx incomplete)."""
     pool = multiprocessing.Pool(procs, _winit, (binary, voc, track, list(setup), timeout))
@@ -194,6 +203,9 @@ def pmap(ctx, fn, chunk_iter, binary, voc="core", track=False, setup=(), extra=N
                 skipped += r["__skipped__"]
                 continue
             yield r
+            if len(ctx.violations) >= ctx.max_violations:
+                ctx.incomplete("stopped early after %d violations (the verdict is already negative)" % len(ctx.violations))
+                break
         if skipped:
             ctx.incomplete("deadline reached: %d cases of this part were not run" % skipped)
             ctx.count("cases_skipped_at_deadline", skipped)
